@@ -560,7 +560,7 @@ class Rng(random.Random):
 CRASH_BUDGET_HIT = []     # (exe, first skipped case, number skipped) per run_cases call that gave up
 
 
-def run_cases(exe, cases, env=None, timeout=300, wrapper=None, max_crashes=8):
+def run_cases(exe, cases, env=None, timeout=300, wrapper=None, max_crashes=6):
     """Feed `cases` (list of script texts, without the marker line) to a script-driven executable that
     echoes '# case <i>' marker lines and starts fresh state at each.  Survives crashes: the case
     during which the process died is reported with crash=(rc, tail of stderr) and the remaining
@@ -604,7 +604,7 @@ def run_cases(exe, cases, env=None, timeout=300, wrapper=None, max_crashes=8):
             # (an abort is cheap and is not counted)
             ncrash += 1
             if rc == 124:
-                timeout = min(timeout, 60)   # the harness has no alarm of its own: do not pay the full timeout again
+                timeout = min(timeout, 30)   # the harness has no alarm of its own: do not pay the full timeout again
         if ncrash >= max_crashes and start < len(cases):
             # a tree on which the harness keeps hanging (each hang costs its alarm time): the dozen hangs found are
             # reported, the remaining cases are not run (empty output, no crash) so that the check ends in minutes
